@@ -303,6 +303,37 @@ def apply_uf_nosave(seed):
         if not np.allclose(out.d[1:], want_d[1:], rtol=1e-10, atol=1e-12):
             return ev, dict(what="apply_uf called repeatedly without a cache argument: the displacement of call #%d is not that of a cache-free call" % (it + 1),
                             max_diff=float(abs(out.d[1:] - want_d[1:]).max()))
+    # full (2-D) matrices in C and Fortran order, with and without rigid-body modes, no residual flexibility: repeated calls (fresh cache each, as for the next
+    # load case) give the documented static + dynamic split every time, and the caller's m, b, k are not modified
+    n2 = 4
+    A_ = rng.randn(n2, n2)
+    Kf = A_ @ A_.T + 40 * np.eye(n2)
+    Mf = np.diag([2.0, 1.0, 3.0, 1.5]); Bf = 0.01 * Kf + 0.1 * Mf
+    for order_ in ("C", "F"):
+        for nrb2 in (0, 2):
+            k2 = np.array(Kf, order=order_, copy=True)
+            if nrb2:
+                k2[:nrb2, :] = 0.0; k2[:, :nrb2] = 0.0
+            m2, b2 = np.array(Mf, order=order_, copy=True), np.array(Bf, order=order_, copy=True)
+            if nrb2:
+                b2[:nrb2, :] = 0.0; b2[:, :nrb2] = 0.0
+            keep = (m2.copy(), b2.copy(), k2.copy())
+            el2 = np.arange(nrb2, n2)
+            for call in range(3):
+                sol = SimpleNamespace(a=rng.randn(n2, nt), v=rng.randn(n2, nt), d=rng.randn(n2, nt))
+                uf = (1.0, 1.2, 1.3, 1.05) if call else (1.0, 1.0, 1.0, 1.0)
+                out = cla.apply_uf(sol, uf, m2, b2, k2, nrb2, None)
+                ev += 1
+                ruf, euf, duf, suf = uf
+                F = keep[0] @ sol.a + keep[1] @ sol.v + keep[2] @ sol.d
+                kee = keep[2][np.ix_(el2, el2)]
+                dyn = (keep[0] @ sol.a + keep[1] @ sol.v)[el2]
+                want = euf * np.linalg.solve(kee, suf * F[el2] - duf * dyn)
+                if not all(np.array_equal(x_, y_) for x_, y_ in zip((m2, b2, k2), keep)):
+                    return ev, dict(what="apply_uf modified the caller's mass / damping / stiffness matrices (%s-ordered 2-D arrays, nrb=%d, call #%d)" % (order_, nrb2, call + 1))
+                if not np.allclose(out.d[el2], want, rtol=1e-8, atol=1e-10 * abs(want).max()):
+                    return ev, dict(what="apply_uf with full %s-ordered matrices, nrb=%d, call #%d (fresh cache): elastic displacement is not euf K^-1 (suf F - duf (M a + B v))" % (order_, nrb2, call + 1),
+                                    max_diff=float(abs(out.d[el2] - want).max()))
     return ev, None
 
 
